@@ -68,7 +68,8 @@ def newGiven (val : Nat) : M Elem := do
 /-- source elements of a slice / other buffer: ids are consumed, no event -/
 def newSilent (val : Nat) : M Elem := do
   let id ← fresh
-  pure ⟨id, val⟩
+  let s ← getSys
+  pure ⟨id, if s.kind = .zst then 0 else val⟩
 
 def newSilentList : List Nat → M (List Elem)
   | [] => pure []
@@ -346,8 +347,7 @@ def runOp (toks : List String) : M String := do
     let b ← getBuf
     match r with
     | .ok toks => do
-      dropBuffer
-      setBuf (CB.new b.cap)
+      tryFinally dropBuffer (setBuf (CB.new b.cap))
       pure (";".intercalate toks)
     | .error p => do
       let _ ← attempt dropBuffer
@@ -379,11 +379,17 @@ def runOp (toks : List String) : M String := do
   | "from_array" :: vals => match natList vals with
     | some vals => do
       let es ← vals.mapM newGiven
-      fromArray es
+      let b ← getBuf
+      onPanic (fromArray es) (setBuf (CB.new b.cap))
       pure "-"
     | none => bad
   | ["from_iter", m] => match parseNat m with
-    | some m => do fromIter m; pure "-"
+    | some m => do
+      let b ← getBuf
+      -- a panic unwinds through `from_iter`: the partially built buffer is destroyed and the
+      -- caller keeps its `new()` buffer
+      onPanic (fromIter m) (setBuf (CB.new b.cap))
+      pure "-"
     | none => bad
   | "eq" :: cap :: rot :: vals => match parseNat cap, parseNat rot, natList vals with
     | some cap, some rot, some vals => do
